@@ -107,7 +107,7 @@ func c13Commit(c *an.Ctx, fn *ssa.Function, what string, commit ssa.Instruction,
 }
 
 func runC13(c *an.Ctx) {
-	c.Floor("C13-R1", 2)
+	c.Floor("C13-R1", 3)
 	c.Floor("C13-R2", 3)
 	c.Floor("C13-R3", 9)
 	c.Floor("C13-R4", 1)
@@ -241,6 +241,58 @@ func runC13(c *an.Ctx) {
 				return "the body copied through the size-limited reader"
 			}
 			return ""
+		},
+	})
+
+	// ---- R1c: the cache file is preferred when fresh, the URL used only when it yields nothing
+	decide(c, "C13-R1", rf+"useCachedOrRefreshFromURL", an.DecideCfg{
+		Dom: an.Domain{"fileerr": an.Bools, `(filetext == "")`: an.Bools, "urlerr": an.Bools},
+		OnCall: func(it *an.Interp, name string, args []an.AV) (an.AV, bool) {
+			switch {
+			case strings.HasSuffix(name, ").refreshFromFile"):
+				if args[1].String() != "p2" || args[2].String() != "p0.cachePath" {
+					return an.Sym("cache file read with other arguments"), true
+				}
+				e := an.Nil()
+				if it.Feature("fileerr").IsTrue() {
+					e = an.NonNil("fileErr")
+				}
+				return an.AV{Kind: an.KTuple, Tup: []an.AV{an.Sym("filetext"), e}}, true
+			case strings.HasSuffix(name, ").refreshFromURL"):
+				if it.Feature("urlerr").IsTrue() {
+					return an.AV{Kind: an.KTuple, Tup: []an.AV{an.CStr(""), an.NonNil("urlErr")}}, true
+				}
+				return an.AV{Kind: an.KTuple, Tup: []an.AV{an.Sym("urltext"), an.Nil()}}, true
+			case name == "fmt.Errorf":
+				return an.NonNil("wrapped"), true
+			case name == "time.Now":
+				return an.Sym("now"), true
+			}
+			return an.AV{}, false
+		},
+		Expect: func(f an.Features, o an.AOutcome) string {
+			url := o.HasCall("(*filter/internal/refreshable.Refreshable).refreshFromURL")
+			switch {
+			case f.B("fileerr"):
+				if !url && o.Ret[1].Kind != an.KNil {
+					return ""
+				}
+				return "an error when the cache file cannot be read"
+			case !f.B(`(filetext == "")`):
+				if !url && o.RetString() == "filetext, nil" {
+					return ""
+				}
+				return "the fresh cache file's content without a download"
+			case f.B("urlerr"):
+				if url && o.Ret[1].Kind != an.KNil && o.Ret[0].String() == `""` {
+					return ""
+				}
+				return "an error and no text when the download fails"
+			}
+			if url && o.RetString() == "urltext, nil" {
+				return ""
+			}
+			return "the downloaded text"
 		},
 	})
 
